@@ -16,12 +16,12 @@ def putP : Op := .put { ts := 5, content := "aa", len := 10, plen := 10, emb := 
 
 /-- skip-index commit, then `finalize_indexes`: the vector is there -/
 theorem C14_skip_then_finalize_keeps_embedding :
-    vecL (runCfg true Mem.create [putP, .commitSkipIndexes, .finalizeIndexes 40]) = [{ id := 0, dim := 3, tok := "p0" }] := by decide
+    vecL (run Mem.create [putP, .commitSkipIndexes, .finalizeIndexes 40]) = [{ id := 0, dim := 3, tok := "p0" }] := by decide
 
 /-- skip-index commit, then drop+open without `finalize_indexes`: the vector is gone -/
 theorem C14_skip_then_reopen_drops_embedding :
-    let m := runCfg true Mem.create [putP, .commitSkipIndexes, .reopen 40 41]
+    let m := run Mem.create [putP, .commitSkipIndexes, .reopen 40 41]
     isActive m.frames 0 = true ∧ vecL m = [] ∧
-    embRun [] (traceCfg true Mem.create [putP, .commitSkipIndexes, .reopen 40 41]) = [some embP] := by decide
+    embRun [] (trace Mem.create [putP, .commitSkipIndexes, .reopen 40 41]) = [some embP] := by decide
 
 end Mv.Core
